@@ -101,6 +101,12 @@ func genAType(r *Rng, depth int) *AType {
 			f.POpt = append(f.POpt, r.Chance(1, 5))
 			f.PTypes = append(f.PTypes, genAType(r, depth-1))
 		}
+		if r.Chance(1, 4) {
+			// the variable arguments as last parameter: fun(a: T, ...: U)
+			f.PNames = append(f.PNames, "...")
+			f.POpt = append(f.POpt, false)
+			f.PTypes = append(f.PTypes, genAType(r, depth-1))
+		}
 		nr := r.Range(0, 2)
 		for i := 0; i < nr; i++ {
 			f.Rets = append(f.Rets, genAType(r, depth-1))
@@ -494,6 +500,10 @@ func c16GenCase(r *Rng) c16Case {
 		opt := ""
 		if r.Chance(1, 4) {
 			opt = "?"
+		}
+		if r.Chance(1, 6) {
+			// the annotation of a function's variable arguments
+			return c16Case{Kind: "param", Line: "---@param ... " + ts + cmt, Want: "param[... " + t.Sexp() + "]", TypeSrc: ts, RTrip: !t.hasFun(), Depth: depth}
 		}
 		return c16Case{Kind: "param", Line: "---@param pname" + opt + " " + ts + cmt, Want: "param[pname" + opt + " " + t.Sexp() + "]", TypeSrc: ts, RTrip: !t.hasFun(), Depth: depth}
 	case 6:
